@@ -19,10 +19,12 @@ package jitdec
 import (
 	"encoding"
 	"encoding/json"
+	"strings"
 	"unsafe"
 
 	"github.com/bytedance/sonic/internal/native"
 	"github.com/bytedance/sonic/internal/rt"
+	"github.com/bytedance/sonic/unquote"
 )
 
 func decodeTypedPointer(s string, i int, vt *rt.GoType, vp unsafe.Pointer, sb *_Stack, fv uint64) (int, error) {
@@ -50,7 +52,16 @@ func decodeJsonUnmarshalerQuoted(vv interface{}, s string) error {
 	if len(s) < 2 || s[0] != '"' || s[len(s)-1] != '"' {
 		return &MismatchQuotedError{}
 	}
-	return vv.(json.Unmarshaler).UnmarshalJSON(rt.Str2Mem(s[1 : len(s)-1]))
+	/* like encoding/json, hand over what the string literal denotes, not its escaped text */
+	inner := s[1 : len(s)-1]
+	if strings.IndexByte(inner, '\\') >= 0 {
+		str, err := unquote.String(inner)
+		if err != 0 {
+			return err
+		}
+		inner = str
+	}
+	return vv.(json.Unmarshaler).UnmarshalJSON(rt.Str2Mem(inner))
 }
 
 func decodeTextUnmarshaler(vv interface{}, s string) error {
